@@ -211,6 +211,11 @@ def check(cx):
 
     # ---------------------------------------------------------------- R12.4 no speaking into a secret channel
     from .msg import model, V
+    # "shares a channel" / "is on the channel" are read from User.channels and Channel.users: the two-world comparison above is about
+    # the real membership only if both sides of the relation are written together by every way of joining and leaving
+    r5 = cx.rule('R12.5', 'the membership relation the visibility tests read is kept from both sides (imported)', floor=1, kind='dependency')
+    depends(cx, r5, 'C04', ('R4.1', 'R4.2'), 'User.channels and Channel.users are written together (one funnel for leaving)')
+
     r4 = cx.rule('R12.4', 'outsiders cannot speak into a secret channel', floor=1, kind='required-guard')
     M = model(cx)
     for e, snd, coll, setname, k in M.fanouts():
